@@ -101,7 +101,8 @@ def profiles_for(pid, tier):
                 ("late-claim", dict(_special="late-claim"), N(30, 200))],
         "C04": [("general", dict(three, w_allocate=14, w_claim=8, w_release=8, names=["1", "2", "3", "03", "٣", "12", "x", "²", "①", "4²", " 5", "+6"],
                                  w_sweep=2), N(160, 1500)),
-                ("fill", dict(_special="fill"), N(24, 120))],
+                ("fill", dict(_special="fill"), N(24, 120)),
+                ("alloc-paired", dict(_special="alloc-paired"), N(40, 300))],
         "C05": [("third", dict(base, apps=["a"], sides=["s1", "s2", "s3", "s4"], names=["1", "2"], client_mailboxes=["m1"],
                                w_claim=12, w_open=12, w_close=8, w_release=6, w_add=10, w_reconnect=10, w_restart=1), N(220, 2000))],
         "C06": [("two-apps", dict(base, apps=["a", "b"], sides=["s1", "s2"], names=["1", "2"], client_mailboxes=["m1"], w_sweep=3,
@@ -212,6 +213,29 @@ def special_history(pid, profile, seed):
         return h, {}
     if kind == "exhaustive":
         return exhaustive_history(profile["L"], profile["_index"]), {}
+    if kind == "alloc-paired":
+        # allocated nameplates that already have their second side must still count as taken
+        t = 8000
+        h = [{"op": "cfg", "rebooted": t, "usage": r.random() < 0.5, "allow_list": r.random() < 0.5, "blur": None}]
+        n = r.randrange(2, 9)
+        c = 0
+        for k in range(1, n + 1):                     # pick 0 = the smallest free name: "1", "2", ...
+            c += 1
+            h += [{"op": "connect", "c": c},
+                  {"op": "recv", "c": c, "t": t + k, "msg": {"type": "bind", "appid": "a", "side": "A%d" % k}},
+                  {"op": "recv", "c": c, "t": t + k, "msg": {"type": "allocate"}, "fresh": "am%d" % k, "pick": 0, "draws": []}]
+            if r.random() < 0.7:                       # the partner arrives
+                c += 1
+                h += [{"op": "connect", "c": c},
+                      {"op": "recv", "c": c, "t": t + k, "msg": {"type": "bind", "appid": "a", "side": "B%d" % k}},
+                      {"op": "recv", "c": c, "t": t + k, "msg": {"type": "claim", "nameplate": str(k)}, "fresh": "unused%d" % k}]
+        for j in range(r.randrange(1, 4)):
+            c += 1
+            h += [{"op": "connect", "c": c},
+                  {"op": "recv", "c": c, "t": t + 50 + j, "msg": {"type": "bind", "appid": "a", "side": r.choice(["Z%d" % j, "A1", "B1"])}},
+                  {"op": "recv", "c": c, "t": t + 50 + j, "msg": {"type": "allocate"}, "fresh": "late%d" % j,
+                   "pick": r.randrange(100), "draws": []}]
+        return h, {}
     if kind == "float-times":
         # arrival times that are NOT multiples of 1/8 s (arbitrary doubles): implementation only, oracle only
         b = r.choice([1, 7, 20, 60, 100, 777, 3600, 86400, r.randrange(1, 5000)])
